@@ -59,7 +59,9 @@ void harness(void){
   vorbis_look_floor0 *look=(vorbis_look_floor0 *)floor0_look(&vd,(vorbis_info_floor *)&info);
   CHECK(look && look->m==info.order && look->ln==info.barkmap && look->linearmap && look->linearmap[0]==0 && look->linearmap[1]==0,"look initialised, bark maps not yet built");
   static unsigned char dummy[4]; oggpack_readinit(&vb.opb,dummy,(int)ND_range(0,40));
-  for(int i=0;i<MMAX+8;i++) g_raw[i]=ND_float(); g_eop=ND_BOOL();
+  /* decoded scalars: concrete distinct TAGS 1,2,4,8,.. (every partial sum is exact and identifies which scalars were accumulated); the unwrap only
+     adds, so tags decide it for all values; symbolic floats on both sides of the adder chain cost 200-500 s per job */
+  for(int i=0;i<MMAX+8;i++) g_raw[i]=(float)(1<<i); g_eop=ND_BOOL();
   float *lsp=(float *)floor0_inverse1(&vb,(vorbis_look_floor *)look);
   if(lsp){
     int m=info.order;
